@@ -34,12 +34,12 @@ MorphOK(e) ==
          IN IF IsMorphism(S, T, cand) THEN res # <<>> /\ AsFun(res) = cand
             ELSE res = <<>>
 Next == /\ l <= Len(Rec)
-        /\ LET e == Rec[l] IN
-           /\ "panic" \notin DOMAIN e
-           /\ CASE e.ev = "minimal" -> MinimalOK(e)
-                [] e.ev = "auts" -> AutsOK(e)
-                [] e.ev = "morph" -> MorphOK(e)
-                [] OTHER -> FALSE
+        /\ (LET e == Rec[l] IN
+             /\ "panic" \notin DOMAIN e
+             /\ CASE e.ev = "minimal" -> MinimalOK(e)
+                  [] e.ev = "auts" -> AutsOK(e)
+                  [] e.ev = "morph" -> MorphOK(e)
+                  [] OTHER -> FALSE) = TRUE
         /\ l' = l + 1
 Spec == Init /\ [][Next]_l
 Accepted == LET d == TLCGet("stats").diameter IN
